@@ -491,3 +491,21 @@ def accepted_is_built(sx, B):
             return False
     sx.claim(all(finite(g[3]) for g in got), "every coordinate of an accepted topology is finite",
              lambda: "layout %r, types not connected by bonds %r: %r" % (layout, sorted(bad), [g[3] for g in got if not finite(g[3])]))
+
+
+import harness.C16 as _c16      # noqa: E402
+
+
+@condition("C03.engine_positions",
+           anchors=["polyply.src.nonbond_engine:NonBondEngine.add_positions", "polyply.src.nonbond_engine:NonBondEngine.remove_positions",
+                    "polyply.src.nonbond_engine:NonBondEngine.concatenate_trees", "polyply.src.nonbond_engine:NonBondEngine.get_point"],
+           rejects=(), selector_only=True, must_cover=["add", "new tree", "concatenate"],
+           stubs=["as C16.histories"], cfg={"path_timeout_s": 60},
+           bounds={"quick": dict(nops=2, nops_big=2, npoints=2, big=[True]), "thorough": dict(nops=3, nops_big=2, npoints=2, big=[False, True])},
+           budget={"quick": 240, "thorough": 1500})
+def engine_positions(sx, B):
+    """'each with finite coordinates' in large systems: the coordinates that are written are the rows of the engine's position
+    table. The C16.histories harness (real NonBondEngine under every add / remove / consolidate history, including the state with
+    more than 5000 stored residues in which a new search tree is opened) with its claim that position table, index lists and
+    search trees agree after every operation - a residue that was added is finite in the table."""
+    _c16.histories(sx, B)
